@@ -346,17 +346,13 @@ def dependsOn (st : St) (dead : List Nat) (i : Nat) : Bool :=
     let deadSegs := deadRecs.filterMap (fun d => if d.rt = .S then d.name else none)
     -- a set only *mentions* a gap (the mention is dropped); a path over a removed gap goes with it
     let deadNamed := deadRecs.filterMap (fun d => if d.rt = .G ∧ r.rt = .U then none else d.name)
-    let deadLinks := deadRecs.filterMap Rec.linkOf
     r.segRefs.any (fun n => deadSegs.contains n) ||
     r.itemRefs.any (fun n => deadNamed.contains n) ||
-    r.pathSteps.any (fun s => deadLinks.any (fun k => k.compatible s.frm s.fo s.to s.too s.ovl) &&
-      -- the step has no other stored link left
-      !(List.range st.lines.length).any (fun j => !dead.contains j &&
-          match st.lines[j]? with
-          | some q => (match q.linkOf with
-              | some k => k.compatible s.frm s.fo s.to s.too s.ovl
-              | none => false)
-          | none => false))
+    -- a path goes with the link a step of it is bound to: the first stored link that fits the step (`fits`, as in
+    -- `pathLinks`); another link that would fit the step as well does not keep the path
+    r.pathSteps.any (fun s => match st.lines.findIdx? (fits s) with
+      | some k => dead.contains k
+      | none => false)
 
 def newDead (st : St) (dead : List Nat) : List Nat :=
   (List.range st.lines.length).filter (fun i => !dead.contains i && dependsOn st dead i)
